@@ -18,7 +18,7 @@ Grammar (line oriented; '#' starts a comment line; indentation continues a claus
     requires|ensures|decreases NAME [P..]: <expr>
   @loop <for|while|loop> <ordinal> [iter=<ghost iterator name>]
     invariant|ensures|decreases NAME [P..]: <expr>
-  @ghost NAME [P..] before|after `<anchor text>` [mandatory]
+  @ghost NAME [P..] before|after|before-stmt `<anchor text>` [mandatory]   |   at-start ``   |   before-loop `<ordinal>`   |   loop-start `<ordinal>`
     <indented verus text>
   @closure <ordinal> `<|params|>`
     header: <typed closure header, e.g. |b: HbBucket<T>| -> (o: Bucket<T>)>
@@ -125,7 +125,7 @@ def parse(path):
             cur_target = lp
             last_clause = None
         elif s.startswith("@ghost "):
-            m = re.match(r"@ghost\s+([A-Za-z0-9_.#]+)\s+\[([A-Za-z0-9 ,]*)\]\s+(before|after|before-stmt)\s+`(.*)`\s*(mandatory)?$", s)
+            m = re.match(r"@ghost\s+([A-Za-z0-9_.#]+)\s+\[([A-Za-z0-9 ,]*)\]\s+(before|after|before-stmt|at-start|before-loop|loop-start)\s+`(.*)`\s*(mandatory)?$", s)
             if not m:
                 err("bad @ghost")
             g = Ghost(m.group(1), m.group(2).replace(",", " ").split(), m.group(3), m.group(4), bool(m.group(5)))
